@@ -3,7 +3,7 @@
 
 `TermDesc` describes an expected terminal (grammar index, priority, string recognizer length or
 regex).  `withFlags` is the finish-flag computation of `LRTable::sort_terminals`
-(table/mod.rs:911-959) over an already sorted list, `key` its sort key, `iter` the `TokenIterator`
+(table/mod.rs:924-973) over an already sorted list, `key` its sort key (a pair), `iter` the `TokenIterator`
 (lexer.rs:99-155) with an arbitrary matching function `m : terminal index → Option length`, `lrPick`
 / `glrKeep` the filters of `LRParser::next_token` and `GlrParser::find_lookaheads`.
 -/
@@ -17,8 +17,19 @@ deriving Repr, DecidableEq, Inhabited
 
 def TermDesc.isStr (t : TermDesc) : Bool := t.strLen.isSome
 
-/-- `term_prio` of `sort_terminals`: `prio * 1000 + (string length if most_specific)` -/
-def key (ms : Bool) (t : TermDesc) : Nat := t.prio * 1000 + (if ms then t.strLen.getD 0 else 0)
+/-- `term_prio` of `sort_terminals`: the pair `(prio, string length if most_specific)`; pairs are
+    compared lexicographically (`Ord` of the Rust tuple `(u32, usize)`), see `KeyLt` -/
+def key (ms : Bool) (t : TermDesc) : Nat × Nat := (t.prio, if ms then t.strLen.getD 0 else 0)
+
+/-- lexicographic `<` on sort keys: priority first, then the length of a string recognizer -/
+def KeyLt (a b : Nat × Nat) : Prop := a.1 < b.1 ∨ (a.1 = b.1 ∧ a.2 < b.2)
+
+instance (a b : Nat × Nat) : Decidable (KeyLt a b) := by unfold KeyLt; exact inferInstance
+
+/-- lexicographic `≤` on sort keys (`¬ KeyLt b a`) -/
+def KeyLe (a b : Nat × Nat) : Prop := a.1 < b.1 ∨ (a.1 = b.1 ∧ a.2 ≤ b.2)
+
+instance (a b : Nat × Nat) : Decidable (KeyLe a b) := by unfold KeyLe; exact inferInstance
 
 /-- finish flags: string recognizers under most-specific; last member of a priority group -/
 def withFlags (ms : Bool) : List TermDesc → List (TermDesc × Bool)
@@ -45,11 +56,11 @@ def glrKeep (longest grammarOrder : Bool) (toks : List (TermDesc × Nat)) : List
   let l1 := if longest then toks.filter fun t => t.2 == maxLen' toks else toks
   if grammarOrder then l1.take 1 else l1
 
-/-- insertion sort by `key` descending, stable (ties keep the incoming order = grammar order):
+/-- insertion sort by `key` (lexicographic order `KeyLe`) descending, stable (ties keep the incoming order = grammar order):
     the model of `terminals.sort_by(|l, r| term_prio(r).cmp(&term_prio(l)))` -/
 def insertDesc (ms : Bool) (x : TermDesc) : List TermDesc → List TermDesc
   | [] => [x]
-  | y :: ys => if key ms y ≤ key ms x then x :: y :: ys else y :: insertDesc ms x ys
+  | y :: ys => if KeyLe (key ms y) (key ms x) then x :: y :: ys else y :: insertDesc ms x ys
 
 def sortTerms (ms : Bool) (l : List TermDesc) : List TermDesc :=
   l.foldr (fun x acc => insertDesc ms x acc) []
@@ -59,7 +70,7 @@ end Rustemo.Lex
 namespace Rustemo.Lex
 
 def beforeB (ms : Bool) (a b : TermDesc) : Bool :=
-  decide (key ms a > key ms b) || (key ms a == key ms b && decide (a.idx < b.idx))
+  decide (KeyLt (key ms b) (key ms a)) || (key ms a == key ms b && decide (a.idx < b.idx))
 
 def sortedB (ms : Bool) : List TermDesc → Bool
   | [] => true
@@ -67,11 +78,12 @@ def sortedB (ms : Bool) : List TermDesc → Bool
 
 def wftB (t : TermDesc) : Bool :=
   match t.strLen with
-  | some n => decide (1 ≤ n) && decide (n < 1000)
+  | some n => decide (1 ≤ n)
   | none => true
 
 /-- certificate for one state of a real table: its `sorted_terminals` list is `withFlags` of a list
-    that is sorted by key (ties in grammar order) and whose string recognizers are 1..999 bytes long -/
+    that is sorted by key (priority, then string length; ties in grammar order) and whose string
+    recognizers are not empty -/
 def sortedOk (ms : Bool) (descs : List TermDesc) (sorted : List (Nat × Bool)) : Bool :=
   sortedB ms descs && descs.all wftB && ((withFlags ms descs).map fun (t, f) => (t.idx, f)) == sorted
 
